@@ -52,6 +52,9 @@ func runC12(c0 *h.Ctx) {
 	cvs := curvesAll()
 	c0.Parallel(4*len(cvs), func(i int, c *h.Ctx) { runC12Curve(c, cvs[i%len(cvs)], i/len(cvs)) })
 	c12Wrappers(c0, cvs)
+	for _, cv := range cvs {
+		c12RelatedKeys(c0, cv)
+	}
 }
 
 // c12Wrappers: the context-free entry points are the operations with the EMPTY context (nil and []byte{} alike), and a
